@@ -23,8 +23,9 @@ def simplify[T: Base](expr: T) -> T:
     if expr.is_leaf():
         return expr
 
-    if expr.hash() in simplification_cache and simplification_cache[expr.hash()] is not None:
-        return cast("T", simplification_cache[expr.hash()])
+    cached = simplification_cache.get(expr.hash(), None)
+    if cached is not None:
+        return cast("T", cached)
 
     try:
         simplified = claripy.backends.any_backend.simplify(expr)
